@@ -236,11 +236,22 @@ func (q *query) overlaps(l data_model.LOD) bool {
 	return !(tt < l.FromSec || l.ToSec < ft)
 }
 
-// the code's exact has-more rule, restated: per function group walk the LODs in the requested direction with the
-// remaining quota; a LOD reports "more" when the quota is used up and the LOD returned any time slot, or when a
-// further row is visited after the quota-th kept row. Also reports whether an in-window row sat in a group that the
-// ends-only test skipped, and how many rows were kept by the last row loop of every (pass, lod) visit.
-func (q *query) codeHasMore() (hm bool, skipLoss bool, aliasGroups bool, stale bool) {
+// walkRes is what an independent walk over the storage answers predicts: the has-more flag, and per function group
+// the keys it inserts (in order, with repetitions).
+type walkRes struct {
+	hm       bool
+	kept     [][]keyT
+	skipLoss bool // an in-window row sat in a time slot that the ends-only test skipped
+	alias    bool // some LOD visit processed two or more rows (rowRepr.Tags is shared between them)
+	stale    bool // a row without string key was processed after one with a string key in the same LOD visit
+}
+
+// walk restates the row selection of getTableFromLODs/limitQueries: per function group the LODs that overlap the time
+// bounds are visited in the requested direction with the remaining quota. fixSkip/fixMore select the repaired rules
+// (fix_F-C25d.diff: no time slot is skipped; fix_F-C25c.diff: "more" needs a further row INSIDE the window), otherwise
+// the rules of the code as it is (ends-only slot test; "more" = a further row is visited after the quota-th kept row,
+// or the quota is used up and the LOD returned any time slot).
+func (q *query) walk(fixMore, fixSkip bool) (res walkRes) {
 	inr := func(r *row) bool {
 		if q.from.Time != 0 {
 			c := cmpMarker(q.from, r)
@@ -257,6 +268,7 @@ func (q *query) codeHasMore() (hm bool, skipLoss bool, aliasGroups bool, stale b
 		return true
 	}
 	ft, tt := q.timeBounds()
+	res.kept = make([][]keyT, len(q.store))
 	for p := range q.store {
 		cnt := 0
 		for i := range q.lods {
@@ -269,12 +281,15 @@ func (q *query) codeHasMore() (hm bool, skipLoss bool, aliasGroups bool, stale b
 			}
 			groups := q.store[p][k]
 			quota := q.num - cnt
-			if quota <= 0 {
+			if quota <= 0 && !fixMore {
 				if len(groups) > 0 {
-					hm = true
+					res.hm = true
 					break
 				}
 				continue
+			}
+			if quota < 0 {
+				quota = 0
 			}
 			kept, keptTimeOK, more := 0, 0, false
 			prevSkey := false
@@ -284,38 +299,44 @@ func (q *query) codeHasMore() (hm bool, skipLoss bool, aliasGroups bool, stale b
 				if q.fromEnd {
 					g = groups[len(groups)-1-gi]
 				}
-				if len(g) > 0 && !inr(&g[0]) && !inr(&g[len(g)-1]) {
+				if !fixSkip && len(g) > 0 && !inr(&g[0]) && !inr(&g[len(g)-1]) {
 					for j := range g {
 						if inr(&g[j]) {
-							skipLoss = true
+							res.skipLoss = true
 						}
 					}
 					continue
 				}
 				for j := range g {
-					if kept == quota {
+					if !fixMore && kept == quota {
 						more = true
 						break scan
 					}
-					if inr(&g[j]) {
-						kept++
-						if g[j].Time >= ft && g[j].Time <= tt {
-							keptTimeOK++
-							_, _, sk := q.orderTuple(&g[j])
-							if sk == "" && prevSkey {
-								stale = true
-							}
-							prevSkey = prevSkey || sk != ""
+					if !inr(&g[j]) {
+						continue
+					}
+					if fixMore && kept == quota {
+						more = true
+						break scan
+					}
+					kept++
+					if g[j].Time >= ft && g[j].Time <= tt {
+						keptTimeOK++
+						res.kept[p] = append(res.kept[p], keyOf(&g[j]))
+						_, _, sk := q.orderTuple(&g[j])
+						if sk == "" && prevSkey {
+							res.stale = true
 						}
+						prevSkey = prevSkey || sk != ""
 					}
 				}
 			}
 			cnt += keptTimeOK
 			if keptTimeOK >= 2 {
-				aliasGroups = true
+				res.alias = true
 			}
 			if more {
-				hm = true
+				res.hm = true
 				break
 			}
 		}
@@ -333,7 +354,7 @@ func genWhats(r *vu.Rng) []int {
 	switch x := r.Intn(100); {
 	case x < 55:
 		n = 1 + r.Intn(3)
-	case x < 82:
+	case x < 76:
 		n = 4 + r.Intn(4)
 	default:
 		n = 8 + r.Intn(4)
@@ -776,7 +797,13 @@ func runTable(o *vu.Out, q *query) {
 			wfStore = false
 		}
 	}
-	hmCode, skipLoss, alias, stale := q.codeHasMore()
+	var walks []walkRes
+	for _, fm := range []bool{false, true} {
+		for _, fs := range []bool{false, true} {
+			walks = append(walks, q.walk(fm, fs))
+		}
+	}
+	skipLoss, alias, stale := walks[0].skipLoss, walks[0].alias, walks[0].stale
 	// strict reading of the last clause: rows beyond the limit exist = some function group has more rows inside the window than the limit
 	lim := q.num
 	if lim < 0 {
@@ -942,8 +969,52 @@ func runTable(o *vu.Out, q *query) {
 			o.Fail("has_more_iff_rows_beyond_limit", line, text)
 		}
 	}
-	if more != hmCode {
+	// the flag and the number of columns of every row, as predicted from which rows each function group inserts:
+	// a function group that inserts a key contributes one column per function of the group (per insertion), one that
+	// does not contributes padding: ONE NaN in the code as it is, one NaN per function with fix_F-C25a.diff.
+	// Any combination of the repairs is accepted; anything else is a defect that is not on record.
+	okMore, okCols := false, false
+	for _, w := range walks {
+		okMore = okMore || w.hm == more
+		if w.hm != more {
+			continue
+		}
+		for _, padFixed := range []bool{false, true} {
+			want := map[keyT]int{}
+			for p := range w.kept {
+				for _, k := range w.kept[p] {
+					want[k] = 0
+				}
+			}
+			for p := range w.kept {
+				in := map[keyT]int{}
+				for _, k := range w.kept[p] {
+					in[k]++
+				}
+				for k := range want {
+					switch n := in[k]; {
+					case n > 0:
+						want[k] += n * len(sels[p])
+					case padFixed:
+						want[k] += len(sels[p])
+					default:
+						want[k]++
+					}
+				}
+			}
+			good := len(want) == len(rows)
+			for i := range rows {
+				n, ok := want[keyOf(&rows[i].Row)]
+				good = good && ok && n == len(rows[i].Data)
+			}
+			okCols = okCols || good
+		}
+	}
+	if !okMore {
 		o.Fail("has_more_characterisation", line, text)
+	}
+	if okMore && !okCols {
+		o.Fail("column_count_by_group", line, text)
 	}
 }
 
@@ -1115,7 +1186,7 @@ func findings(o *vu.Out) {
 	// F-C25d: both markers inside one time slot: the slot is skipped because its first and last rows are outside
 	{
 		rows, _, _, _ := api.VerifGetTable(api.VerifTableIn{Whats: []int{1}, Lods: lod, NumResults: 10, By: []string{format.TagID(0)},
-			From: api.RowMarker{Time: 101, Tags: []api.RawTag{{Index: 0, Value: 1}}}, To: api.RowMarker{Time: 101, Tags: []api.RawTag{{Index: 0, Value: 2}}},
+			From: api.RowMarker{Time: 101, Tags: []api.RawTag{{Index: 0, Value: 1}}}, To: api.RowMarker{Time: 101, Tags: []api.RawTag{{Index: 0, Value: 3}}},
 			Store: func(p, k int) [][]row { return [][]row{{mk(101, 1), mk(101, 2), mk(101, 3)}} }})
 		if len(rows) == 0 {
 			o.Finding("F-C25d", "reproduced")
